@@ -1,16 +1,28 @@
 #!/bin/bash
 # usage: run_seeds.sh <dir-with-seeds> [property...]   (dir layout: <dir>/<Cxx>[-]<V>/patch.diff or <dir>/<Cxx>/<V>/patch.diff)
-# Applies each seeded change to /repo, runs the property's quick check, reverts. Prints a detection table.
+# Applies each seeded change to a scratch copy of /repo's working tree (never to /repo itself), runs the
+# property's quick check on it with a scratch verif directory (so /verif/evidence is not touched), reverts.
+# Prints a detection table. ALSO=<props> runs further properties' checks on each seed (cross-detection).
 cd /verif
+export GOFLAGS=-mod=mod GOPROXY=off GOSUMDB=off GOTOOLCHAIN=local GOWORK=off
 src="$1"; shift
+./run.sh C14 >/dev/null 2>&1   # make sure the binary is current
+S=/tmp/seedrun.$$; V=/tmp/seedverif.$$
+trap 'rm -rf $S $V' EXIT
+mkdir -p $S $V/evidence
+rsync -a --exclude .git /repo/ $S/
+ln -s /verif/known_findings.json $V/known_findings.json
+ln -s /verif/checker $V/checker
 for d in $(ls -d $src/C*/[A-Z] $src/C*-[A-Z] 2>/dev/null | sort); do
   name=$(echo "$d" | sed -E 's#.*/(C[0-9]+)[/-]([A-Z])$#\1-\2#'); prop=${name%%-*}
   if [ $# -gt 0 ] && ! echo "$@" | grep -qw "$prop"; then continue; fi
-  if [ -n "$(git -C /repo status --porcelain)" ]; then echo "repo dirty, abort"; exit 2; fi
-  if ! git -C /repo apply "$d/patch.diff" 2>/dev/null; then echo "$name APPLY-FAIL"; continue; fi
-  out=$(./run.sh $prop 2>&1); code=$?
-  git -C /repo checkout -- . ; git -C /repo clean -fdq
-  nv=$(echo "$out" | grep -c "^VIOLATION")
-  keys=$(echo "$out" | grep "^  violated" | sed 's/  violated //' | tr '\n' ' ' | cut -c1-260)
-  if [ $nv -gt 0 ]; then echo "$name DETECTED exit=$code $keys"; else echo "$name missed exit=$code"; fi
+  if ! (cd $S && git apply "$d/patch.diff" 2>/dev/null); then echo "$name APPLY-FAIL"; continue; fi
+  for p in $prop $ALSO; do
+    out=$(./bin/haqqcheck -property $p -repo $S -verif $V 2>&1); code=$?
+    nv=$(echo "$out" | grep -c "^VIOLATION")
+    keys=$(echo "$out" | grep "^  violated" | sed 's/  violated //' | tr '\n' ' ' | cut -c1-260)
+    tag=""; [ "$p" != "$prop" ] && tag=" (by $p)"
+    if [ $nv -gt 0 ]; then echo "$name DETECTED$tag exit=$code $keys"; elif [ "$p" = "$prop" ]; then echo "$name missed exit=$code"; fi
+  done
+  (cd $S && git apply -R "$d/patch.diff")
 done
